@@ -99,9 +99,12 @@ class VClass:
         self.builtin = builtin
         self.frozen = frozen
         self.members = {}  # enum members name -> VObj
+        self.ext_qual = None
 
     @property
     def qualname(self):
+        if self.ext_qual:
+            return self.ext_qual
         return f"{self.module.name}:{self.name}" if self.module else self.name
 
     def mro(self):
